@@ -81,6 +81,11 @@ def run(case):
             mono = (s.start <= sy.start <= Segment(math.nextafter(y, math.inf), 0).start) and s.start <= sz.start
             eqh = (sy.start != s.start or (Segment(sy.start, 5) == Segment(s.start, 5)
                                            and hash(Segment(sy.start, 5)) == hash(Segment(s.start, 5))))
+            # a segment built from raw bounds and one built from the already rounded bounds are the same segment:
+            # equal, hash-equal, one element of a set, one member of a timeline, found by `in`
+            s2 = Segment(s.start, s.end)
+            eqh = eqh and s == s2 and hash(s) == hash(s2) and len({s, s2, sy if sy.start == s.start and sy.end == s.end else s}) == 1 \
+                and len(Timeline([s, s2])) == (1 if s else 0) and ((s2 in Timeline([s])) == bool(s))
             return {"P": float(P).hex(), "r": float(r).hex(), "copy": float(c.start).hex(), "and": float(a.start).hex(),
                     "or": float(o.start).hex(), "sup": float(sup.start).hex(), "w": float(w.start).hex(),
                     "near": bool(near), "mono": bool(mono), "eqh": bool(eqh),
